@@ -2,7 +2,7 @@
 //  mode `bends R`: exhaustive sweep of the compiled Avoid::bends over all relative positions in {-R..R}^2 and all 16
 //                  pairs of single directions, for three base points / scales (quarter units; all exactly representable).
 //                  One line per case: bx by s dx dy cd dd value   (same order as extract/c05_*_driver.ml)
-//  mode `routes` : stdin scenes  "S pen ns nc" / ns x "x0 y0 x1 y1" / nc x "sx sy dx dy" / "E";
+//  mode `routes` : stdin scenes  "S pen ns nc" / ns x "x0 y0 x1 y1" / nc x "sx sy dx dy sdirs ddirs" / "E";
 //                  orthogonal routing, nudging off (idealNudgingDistance 0) so that route() is the raw search result;
 //                  prints per connector "R n x0 y0 ..." (%.17g) and "E" per scene.
 #include <cstdio>
@@ -51,8 +51,10 @@ static int routes_mode()
         }
         std::vector<ConnRef*> conns;
         for (int i = 0; i < nc; i++) {
-            double sx, sy, dx, dy; std::cin >> sx >> sy >> dx >> dy;
-            conns.push_back(new ConnRef(router, ConnEnd(Point(sx, sy)), ConnEnd(Point(dx, dy)), 100 + i));
+            double sx, sy, dx, dy; unsigned sdir, ddir; std::cin >> sx >> sy >> dx >> dy >> sdir >> ddir;
+            // sdir/ddir: libavoid ConnDirFlags (Up 1, Down 2, Left 4, Right 8, All 15) = pin direction restrictions
+            conns.push_back(new ConnRef(router, ConnEnd(Point(sx, sy), (ConnDirFlags) sdir),
+                                        ConnEnd(Point(dx, dy), (ConnDirFlags) ddir), 100 + i));
         }
         try {
             router->processTransaction();
